@@ -235,6 +235,25 @@ func enumerateUnion(e *common.Enum) {
 			return sel(xs, "", "t2")
 		}, security.SeverityHigh})
 	}
+	// arms that mix NULL placeholders with other columns and with call payloads, NULLs before and after them
+	for _, mx := range []struct {
+		name string
+		xs   func() []sqlgen.X
+	}{
+		{"col,NULL", func() []sqlgen.X { return []sqlgen.X{sqlgen.Col("c2"), sqlgen.Null()} }},
+		{"col,NULL,NULL", func() []sqlgen.X { return []sqlgen.X{sqlgen.Col("c2"), sqlgen.Null(), sqlgen.Null()} }},
+		{"NULL,NULL,col", func() []sqlgen.X { return []sqlgen.X{sqlgen.Null(), sqlgen.Null(), sqlgen.Col("c2")} }},
+		{"1,NULL,col", func() []sqlgen.X { return []sqlgen.X{sqlgen.Int("1"), sqlgen.Null(), sqlgen.Col("c2")} }},
+		{"LOAD_FILE,NULL,NULL", func() []sqlgen.X {
+			return []sqlgen.X{sqlgen.Func("LOAD_FILE", []sqlgen.X{sqlgen.Str("/etc/passwd")}, sqlgen.FuncOpts{}), sqlgen.Null(), sqlgen.Null()}
+		}},
+		{"NULL,SLEEP,NULL", func() []sqlgen.X {
+			return []sqlgen.X{sqlgen.Null(), sqlgen.Func("SLEEP", []sqlgen.X{sqlgen.Int("5")}, sqlgen.FuncOpts{}), sqlgen.Null()}
+		}},
+	} {
+		mx := mx
+		probes = append(probes, probe{"mixed:" + mx.name, "mixed", func(spell func(string) string) sqlgen.S { return sel(mx.xs(), "", "t2") }, ""})
+	}
 	for _, st := range [][2]string{{"information_schema", "columns"}, {"information_schema", "schemata"}, {"pg_catalog", "pg_class"}, {"", "pg_shadow"}, {"sys", "objects"},
 		{"mysql", "user"}, {"", "sqlite_master"}, {"msdb", "backupset"}, {"tempdb", "sysobjects"}} {
 		st := st
@@ -300,11 +319,28 @@ func enumerateUnion(e *common.Enum) {
 					ok := true
 					for _, a := range apis() {
 						cks, _, cerr, cpan := safeScan(a, canonSQL, security.SeverityLow)
+						if cerr != nil && cerr.Error() == "scan-modified-tree" {
+							ok = false
+							c.Fail("scan-modified-tree:"+a.name+":union:"+pr.class, "scanning changed the tree of "+canonSQL)
+							continue
+						}
 						if cpan != "" || cerr != nil {
 							continue // C01's / C03's business
 						}
 						cm := multiset(cks)
+						// scanning the same tree twice gives the same findings (a scan that edits the tree shows here too)
 						if a.name == "tree" {
+							if t, err := gosqlx.Parse(canonSQL); err == nil {
+								sc := security.NewScanner()
+								r1 := fmt.Sprint(sc.Scan(t).Findings)
+								r2 := fmt.Sprint(security.NewScanner().Scan(t).Findings)
+								if r1 != r2 {
+									ok = false
+									c.Fail("rescan-differs:tree:union:"+pr.class, fmt.Sprintf("two scans of one tree differ for %s\n first:  %s\n second: %s", canonSQL, common.Trim(r1, 300), common.Trim(r2, 300)))
+								}
+							}
+						}
+						if a.name == "tree" && pr.sev != "" {
 							if cm[key{string(security.PatternUnionBased), string(pr.sev)}] == 0 {
 								ok = false
 								c.Fail("canonical-missing:tree:union:"+pr.class, fmt.Sprintf("the documented UNION probe is not reported as %s/%s in the canonical position: %s gives %s", security.PatternUnionBased, pr.sev, canonSQL, show(cm)))
@@ -318,6 +354,11 @@ func enumerateUnion(e *common.Enum) {
 							for l := 0; l < 3; l++ {
 								sql := sqlgen.Render(st.Toks, l)
 								ks, res, err, pan := safeScan(a, sql, security.SeverityLow)
+								if err != nil && err.Error() == "scan-modified-tree" {
+									ok = false
+									c.Fail("scan-modified-tree:"+a.name+":union:"+pr.class, "scanning changed the tree of "+sql)
+									continue
+								}
 								if pan != "" || err != nil {
 									continue
 								}
@@ -383,7 +424,7 @@ func Check() *common.Check {
 		Level: "exploration",
 		Rule: "18 payloads built from the documented ones (4 tautologies, 3 time-delay calls, 3 dangerous calls, 4 other spellings of those names, 4 nestings of one call inside the arguments of another) x every expression hole of the model grammar (condition payloads only in the 17 condition holes, each also as operand of AND / OR / NOT and inside redundant parentheses; call payloads in all 49 holes) " +
 			"x 3 layouts (natural, one space everywhere, one lexeme per line with lower-case keywords and CRLF) x 4 severity thresholds x 3 scanner APIs (tree Scan, ScanSQL, the CLI text scanner); thorough adds every payload inside a second level of nesting (hole in hole). " +
-			"UNION probes (2/3/5 NULL columns; 9 system tables) x UNION / UNION ALL x 8 hosts (top level, end of a chain, IN / EXISTS sub-query, CTE body, INSERT..SELECT, CREATE VIEW, second statement) x 3 spellings of the names (lower, upper, mixed) x 3 layouts x 4 thresholds x 3 APIs. " +
+			"UNION probes (2/3/5 NULL columns; 9 system tables; 6 arms mixing NULLs with columns and call payloads) x UNION / UNION ALL x 8 hosts (top level, end of a chain, IN / EXISTS sub-query, CTE body, INSERT..SELECT, CREATE VIEW, second statement) x 3 spellings of the names (lower, upper, mixed) x 3 layouts x 4 thresholds x 3 APIs. " +
 			"Per API the canonical answer is that API's answer for 'SELECT c0 FROM t0 WHERE <payload>'. distinct = distinct (payload, position, wrapper); non-trivial = the tree API reports the payload in the canonical position",
 		Assume: []string{"closure and layout invariance are judged per API against that API's own canonical answer; the documented (class, severity) is demanded from the tree API only (ScanSQL documents no tautology detection)",
 			"a position whose statement the parser rejects is skipped for the tree API (C03's business)"},
